@@ -390,6 +390,12 @@ def is_integral_lit(s):
     return d == d.to_integral_value()
 
 
+def int_fits(kind, s):
+    v = int(Decimal(s))
+    b = BITS[kind]
+    return (0 <= v < 2 ** b) if kind in UINT_KINDS else (-2 ** (b - 1) <= v < 2 ** (b - 1))
+
+
 def walk_positions(fields, doc, fold, visit):
     """Visit (kind, is_element, docnode) for every scalar position the loaders address.
     fold: keys are matched case-insensitively (conf) — else exactly (mapping)."""
@@ -433,8 +439,8 @@ def detect_shapes(case):
 
     def visit(kind, elem, v):
         if "fl" in v:
-            if (kind in INT_KINDS or kind in UINT_KINDS) and is_integral_lit(v["fl"]):
-                shapes.add(K_F8A)
+            if (kind in INT_KINDS or kind in UINT_KINDS) and is_integral_lit(v["fl"]) and int_fits(kind, v["fl"]):
+                shapes.add(K_F8A)      # Hyps.float_at_field: integral AND in the kind's range (else every format rejects)
             if elem and kind in ("string", "bool"):
                 shapes.add(K_ELEM)
 
